@@ -102,4 +102,25 @@ Proof.
   apply wrap_dec; [apply b2n_le1 | exact Hb].
 Qed.
 
+(* every history of moves: the machine counter, stepped with the wrapping increment from the wrapped start value, is the
+   wrapped model counter at every point — the two never drift apart, however often the counter wraps *)
+Fixpoint mach_trace (c : N) (p : position) (ms : list move) : N :=
+  match ms with
+  | [] => c
+  | m :: r => mach_trace (mach_inc c (black_moves p)) (makemove K p m) r
+  end.
+
+Theorem run_fullmove_wraps ms : forall p,
+  wrap64 (fullmove (fold_left (makemove K) ms p)) = mach_trace (wrap64 (fullmove p)) p ms.
+Proof.
+  induction ms as [|m r IH]; intros p; cbn [fold_left mach_trace]; [reflexivity|].
+  rewrite IH, makemove_fullmove_wraps. reflexivity.
+Qed.
+
+Lemma mach_trace_lt ms : forall c p, c < W64 -> mach_trace c p ms < W64.
+Proof.
+  induction ms as [|m r IH]; intros c p Hc; cbn [mach_trace]; [exact Hc|].
+  apply IH. unfold mach_inc. apply N.mod_lt, W64_pos.
+Qed.
+
 End WithKeys.
